@@ -44,6 +44,13 @@ def _common_divisors(vals):
 
 
 def draw_case(data, tier):
+    if data.draw(st.integers(0, 15), label="mode_pick") == 0:
+        from gv import netgen
+
+        cfg = netgen.draw_model_cfg(data, tier)
+        if not cfg["equivariant"] and cfg["cls"] == "ConvBlock":
+            cfg["cls"] = "ResNet"
+        return {"mode": "saveload", "cfg": cfg, "xseed": data.draw(st.integers(0, 9999), label="xseed")}
     d = data.draw(st.sampled_from([1, 2, 2, 3]), label="d")
     shape, _ = gen.draw_shape(data, d, 1, 3 if d < 3 else 2, classes=("cubic", "distinct", "free", "has1"))
     torus = gen.draw_torus(data, d)
